@@ -42,7 +42,7 @@ def run(ctx):
         for op in ops:
             name, total = op["name"], op["total"]
             ks = set(faultlib.thresholds(op))
-            step = 1 if thorough else (8 if total > 100 else 4)
+            step = 1 if thorough or (name.endswith(".helpout") and fault == "eof") else (8 if total > 100 else 4)
             ks |= set(range(0, total + 1, step))
             if name.endswith(".stale"):
                 ks = {0}     # only the idle-loss case is deterministic when queued stale data can satisfy the operation
